@@ -66,6 +66,10 @@ class Oracle(BaseOracle):
                     pr = oracles.try_compile(p)
                     if pr is not None and pr[0] == r[0]:
                         self.stat("source_also_fails_compile")
+                    elif not self.p_wf_ok() or (pr is not None and pr[0] not in oracles.DOCUMENTED_COMPILE_REJECTIONS):
+                        # the source state is itself ill-formed / uncompilable (reached through a recorded
+                        # known finding at an earlier step): nothing can be demanded of its successors
+                        self.stat("source_already_illformed")
                     else:
                         self.violation(dict(base, oracle="compile", kind=r[0], cause=findings.cause_of(ev, p, q, r[0])), dict(art, error=r[1]))
 
